@@ -236,6 +236,8 @@ type fakeMsg struct {
 	fnum [fakeMaxFields]uint64
 	// repeated string fields keep their elements here
 	flist [fakeMaxFields][]string
+	// bytes fields keep the very slice they were given (like generated and dynamic messages do: no copy)
+	fbytes [fakeMaxFields][]byte
 }
 
 // fakeList is the protoreflect.List view of one repeated string field of a fakeMsg.
@@ -290,6 +292,9 @@ func (m *fakeMsg) Get(fd protoreflect.FieldDescriptor) protoreflect.Value {
 	}
 	switch fd.Kind() {
 	case protoreflect.BytesKind:
+		if m.fbytes[i] != nil {
+			return protoreflect.ValueOfBytes(m.fbytes[i])
+		}
 		return protoreflect.ValueOfBytes([]byte(m.fvals[i]))
 	case protoreflect.BoolKind:
 		return protoreflect.ValueOfBool(m.fnum[i] != 0)
@@ -314,7 +319,8 @@ func (m *fakeMsg) Set(fd protoreflect.FieldDescriptor, v protoreflect.Value) {
 	}
 	switch fd.Kind() {
 	case protoreflect.BytesKind:
-		m.fvals[i] = string(v.Bytes())
+		m.fbytes[i] = v.Bytes()
+		m.fvals[i] = string(m.fbytes[i])
 	case protoreflect.BoolKind:
 		m.fnum[i] = 0
 		if v.Bool() {
